@@ -512,8 +512,9 @@ def journal_payload(prop, s, body, msg):
             case = json.loads(raw)
         except Exception:
             case = {"raw": raw}
-    tail = s.log[-2500:]
-    return {"property": prop, "subcheck": sub, "case": case, "msg": msg, "variant": s.variant["name"], "log_tail": tail}
+    m = CRASH_RE.search(s.log)
+    head = s.log[m.start():m.start() + 3500] if m else s.log[-2500:]
+    return {"property": prop, "subcheck": sub, "case": case, "msg": msg, "variant": s.variant["name"], "log_tail": head}
 
 
 def cmd_replay(args):
